@@ -730,3 +730,103 @@ func dryTwin(p *Program, fn *ssa.Function, dry ssa.Value, site *ssa.Call, callee
 	}
 	return gates > 0
 }
+
+// R19g: the dry pass's model of the tree agrees with what the real pass does.  Where the dry side of a flag test
+// validates a callee against a *fresh empty filesystem* (afero.NewMemMapFs()) instead of the real one, it assumes
+// the real pass clears the target first; the real-side call of the same callee must therefore be dominated by
+// fs.RemoveAll of the same path, with its error propagated.
+func ruleDryModelAgrees(p *Program, r *Report) {
+	r.Begin("R19g", "dry model = real effect: when the dry pass validates a callee against an empty scratch filesystem (afero.NewMemMapFs()) in place of the real one, every real-pass call of that callee on the same entry is dominated by fs.RemoveAll of the same path whose error is propagated — otherwise the dry pass accepts a description the real pass then fails on or merges into leftovers", 1)
+	defer r.End()
+	D := dryParams(p)
+	isScratch := func(v ssa.Value) bool {
+		return DependsOn(v, func(x ssa.Value) bool {
+			c, ok := x.(*ssa.Call)
+			if !ok {
+				return false
+			}
+			g := c.Call.StaticCallee()
+			return g != nil && g.Name() == "NewMemMapFs" && g.Pkg != nil && strings.HasSuffix(g.Pkg.Pkg.Path(), "afero")
+		})
+	}
+	for _, fn := range p.RepoFns {
+		idx, ok := D[fn]
+		if !ok || idx >= len(fn.Params) {
+			continue
+		}
+		dry := fn.Params[idx]
+		nd := newNotDry(fn, dry)
+		var calls []*ssa.Call
+		ForEachInstr(fn, func(ins ssa.Instruction) {
+			if c, ok := ins.(*ssa.Call); ok {
+				for _, cal := range p.Callees(c) {
+					if _, carries := D[cal]; carries {
+						calls = append(calls, c)
+						break
+					}
+				}
+			}
+		})
+		for _, m := range calls {
+			scratch := false
+			for _, a := range m.Call.Args {
+				if strings.HasSuffix(a.Type().String(), "afero.Fs") && isScratch(a) {
+					scratch = true
+				}
+			}
+			if !scratch {
+				continue
+			}
+			r.Fn(FnName(fn))
+			callee := p.Callees(m)[0]
+			n := 0
+			for _, c2 := range calls {
+				if c2 == m || p.Callees(c2)[0] != callee || !underNotDry(nd, c2.Block(), dry) {
+					continue
+				}
+				if len(c2.Call.Args) == 0 || !sameValue(c2.Call.Args[0], m.Call.Args[0], 0) {
+					continue
+				}
+				n++
+				key := fmt.Sprintf("cleared@%s→%s~%d", FnName(fn), FnName(callee), n)
+				// a dominating RemoveAll of the same path on the real filesystem
+				ok := false
+				why := "no fs.RemoveAll of the entry's path dominates the call"
+				ForEachInstr(fn, func(ins ssa.Instruction) {
+					rc, isCall := ins.(*ssa.Call)
+					if !isCall || !rc.Call.IsInvoke() || rc.Call.Method.Name() != "RemoveAll" || isScratch(rc.Call.Value) {
+						return
+					}
+					dom := rc.Block() != c2.Block() && rc.Block().Dominates(c2.Block())
+					if rc.Block() == c2.Block() && InstrIndex(rc) < InstrIndex(c2) {
+						dom = true
+					}
+					if !dom {
+						return
+					}
+					samePath := false
+					for _, a := range c2.Call.Args {
+						if len(rc.Call.Args) > 0 && sameValue(a, rc.Call.Args[0], 0) {
+							samePath = true
+						}
+					}
+					if !samePath {
+						why = "the dominating RemoveAll clears a different path"
+						return
+					}
+					if prop, w := errPropagated(rc); !prop {
+						why = "the RemoveAll's error is not propagated: " + w
+						return
+					}
+					ok = true
+				})
+				r.Check(ok, key, "the real pass clears the path (RemoveAll, error propagated) on every path to the call", fmt.Sprintf("in %s the dry pass validates %s against an empty scratch filesystem, but on the real side %s: the dry pass accepts descriptions (e.g. a file where a directory exists) that the real pass then fails on midway or writes over leftovers", FnName(fn), FnName(callee), why), c2.Pos())
+			}
+			if n == 0 {
+				r.Undecided("real-twin@"+FnName(fn), "the scratch-filesystem validation call has no real-pass twin on the same entry", m.Pos())
+			}
+		}
+	}
+}
+
+func init() { register("C19", Rule{"R19g", ruleDryModelAgrees}) }
